@@ -126,3 +126,23 @@ Example C16_in_range_nonvacuous :
   Forall inp_ok ins /\ Forall (fun i => 0 < length (vs i)) ins
   /\ merge_cells ins = [[0;1];[2;3]] /\ merge_cells_spec ins = [[0;1];[3;4]].
 Proof. repeat split; repeat constructor. Qed.
+
+(* No data set is invented: for ALL input lists (no well-formedness needed, the duplicate-label renaming branch
+   included) every data set of the merged object stems from a data set of some input with the same name, type and
+   association ... *)
+Theorem C16_no_invented_data : forall ins l v,
+  lookup l (merge_data ins) = Some v -> exists i d, In i ins /\ In d (ds i) /\ stems d l.
+Proof. exact merged_data_stems. Qed.
+Print Assumptions C16_no_invented_data.
+
+(* ... and for inputs with distinct labels it is exactly that data set's own label. *)
+Theorem C16_no_invented_data_exact : forall ins l v,
+  Forall wf_inp ins -> lookup l (merge_data ins) = Some v ->
+  exists i d, In i ins /\ In d (ds i) /\ l = lbl0 d.
+Proof.
+  intros ins l v Hwf H. destruct (@merged_data_stems ins l v H) as [i [d [Hi [Hd Hs]]]].
+  pose proof (@merged_data_names ins l v Hwf H) as Hr.
+  exists i, d. repeat split; try assumption.
+  destruct l as [[[n r] t] c]. simpl in Hr, Hs. destruct Hs as [-> [-> ->]]. subst r. reflexivity.
+Qed.
+Print Assumptions C16_no_invented_data_exact.
